@@ -69,45 +69,51 @@ theorem harmonise_lossless (X Y : TArr) (hX : X.valid) (hY : Y.valid) (X' Y' : T
     cases hmx : X.arr.min? with
     | none => rw [hmx] at h; cases h
     | some mx =>
-      cases hmy : Y.arr.min? with
-      | none => rw [hmx, hmy] at h; cases h
-      | some my =>
-        rw [hmx, hmy] at h
-        simp only at h
-        by_cases hneg : mx < 0 ∨ my < 0
-        · rw [if_pos hneg] at h; cases h
-        · rw [if_neg hneg] at h
-          have hx0 : ∀ v ∈ X.arr.entries, 0 ≤ v := fun v hv => by
-            have := min?_le_mem _ _ hmx v hv; omega
-          have hy0 : ∀ v ∈ Y.arr.entries, 0 ≤ v := fun v hv => by
-            have := min?_le_mem _ _ hmy v hv; omega
-          by_cases hw : X.dt.itemsize > Y.dt.itemsize ∨ (X.dt.itemsize = Y.dt.itemsize ∧ X.dt.signed = false)
-          · rw [if_pos hw] at h
-            cases h
-            refine ⟨agree_refl _, ?_, rfl⟩
-            apply astype_agree
-            intro v hv
-            apply cast_of_nonneg X.dt Y.dt hX.1 hY.1 v (hY.2 v hv) (hy0 v hv)
-            rcases hw with hw | hw
-            · exact Or.inl hw
-            · exact Or.inr ⟨hw.1, Or.inl hw.2⟩
-          · rw [if_neg hw] at h
-            cases h
-            refine ⟨?_, agree_refl _, rfl⟩
-            apply astype_agree
-            intro v hv
-            apply cast_of_nonneg Y.dt X.dt hY.1 hX.1 v (hX.2 v hv) (hx0 v hv)
-            by_cases hlt : Y.dt.itemsize > X.dt.itemsize
-            · exact Or.inl hlt
-            · right
-              have heq : Y.dt.itemsize = X.dt.itemsize := by
-                rcases Nat.lt_or_ge Y.dt.itemsize X.dt.itemsize with h1 | h1
-                · exact absurd (Or.inl h1) hw
-                · omega
-              refine ⟨heq, Or.inr ?_⟩
-              cases hs : X.dt.signed with
-              | true => rfl
-              | false => exact absurd (Or.inr ⟨heq.symm, hs⟩) hw
+      rw [hmx] at h
+      simp only at h
+      by_cases hnx : mx < 0
+      · rw [if_pos hnx] at h; cases h
+      · rw [if_neg hnx] at h
+        cases hmy : Y.arr.min? with
+        | none => rw [hmy] at h; cases h
+        | some my =>
+          rw [hmy] at h
+          simp only at h
+          by_cases hny : my < 0
+          · rw [if_pos hny] at h; cases h
+          · rw [if_neg hny] at h
+            have hneg : ¬ (mx < 0 ∨ my < 0) := by omega
+            have hx0 : ∀ v ∈ X.arr.entries, 0 ≤ v := fun v hv => by
+              have := min?_le_mem _ _ hmx v hv; omega
+            have hy0 : ∀ v ∈ Y.arr.entries, 0 ≤ v := fun v hv => by
+              have := min?_le_mem _ _ hmy v hv; omega
+            by_cases hw : X.dt.itemsize > Y.dt.itemsize ∨ (X.dt.itemsize = Y.dt.itemsize ∧ X.dt.signed = false)
+            · rw [if_pos hw] at h
+              cases h
+              refine ⟨agree_refl _, ?_, rfl⟩
+              apply astype_agree
+              intro v hv
+              apply cast_of_nonneg X.dt Y.dt hX.1 hY.1 v (hY.2 v hv) (hy0 v hv)
+              rcases hw with hw | hw
+              · exact Or.inl hw
+              · exact Or.inr ⟨hw.1, Or.inl hw.2⟩
+            · rw [if_neg hw] at h
+              cases h
+              refine ⟨?_, agree_refl _, rfl⟩
+              apply astype_agree
+              intro v hv
+              apply cast_of_nonneg Y.dt X.dt hY.1 hX.1 v (hX.2 v hv) (hx0 v hv)
+              by_cases hlt : Y.dt.itemsize > X.dt.itemsize
+              · exact Or.inl hlt
+              · right
+                have heq : Y.dt.itemsize = X.dt.itemsize := by
+                  rcases Nat.lt_or_ge Y.dt.itemsize X.dt.itemsize with h1 | h1
+                  · exact absurd (Or.inl h1) hw
+                  · omega
+                refine ⟨heq, Or.inr ?_⟩
+                cases hs : X.dt.signed with
+                | true => rfl
+                | false => exact absurd (Or.inr ⟨heq.symm, hs⟩) hw
 
 theorem frameCount_agree (a a' b b' : Arr) (ha : a.agree a') (hb : b.agree b') (hT : a.T = b.T)
     (x y : Nat) (hx : x < a.F) (hy : y < b.F) (i j : Int) :
